@@ -371,6 +371,34 @@ func c05Vector(c *Ctx, raw stdjson.RawMessage) {
 			c05Check(c, w.name, w.accepts, wd, want, tag, "wrap="+w.wrap, "insert="+in.C)
 		}
 	}
+	// 1c. inside a string: a killing byte (a control character, an invalid escape) at every distance from the
+	// opening quote and from the closing quote, with enough bytes behind the string for the word-at-a-time scans
+	// (plain bytes in a string stutter: PlainInStringStutters; a dead prefix stays dead)
+	if v.M == "S" && (len(v.D) <= 2 || r.intn(6) == 0) {
+		base0 := liftDoc(v.D, nil, 0, 'x')
+		comp0 := liftDoc(v.C, nil, 0, 'x')
+		for _, kc := range v.K {
+			if kc != "C" {
+				continue
+			}
+			kb := classBytes[kc][r.intn(len(classBytes[kc]))]
+			for a := 0; a <= 17; a++ {
+				for _, bb := range []int{0, 1, 6, 7, 8, 9, 15, 16, 17} {
+					if a+bb > 24 && r.intn(3) != 0 {
+						continue
+					}
+					d := append([]byte(nil), base0...)
+					d = append(d, bytes.Repeat([]byte{'x'}, a)...)
+					d = append(d, kb)
+					d = append(d, bytes.Repeat([]byte{'y'}, bb)...)
+					d = append(d, comp0...)
+					d = append(d, "                        "...)
+					c.Case()
+					c05All(c, d, false, a%4 == 0 && bb < 2, tag, "kill-in-string="+kc)
+				}
+			}
+		}
+	}
 	// 2. every killing class, every representative byte: doc+k and doc+k+completion are not JSON
 	comp := liftDoc(v.C, nil, 0, 'x')
 	base := docs[0]
